@@ -30,6 +30,10 @@ CUR = ("cursor",)
 def prim_of(c):
     """Recognise a number primitive from a Callee -> ("prim", name, width, endian, mode) or None."""
     n = c.npath
+    m = re.match(r"^core::(num|f32|f64)::<impl ([uif]\d+)>::from_(be|le)_bytes$", n)
+    if m and m.group(2) in PRIM_W:
+        # `uN::from_be_bytes` applied to a `[u8; N]` cut off the input (the array length is tied to the type)
+        return ("prim", n, PRIM_W[m.group(2)], m.group(3), "complete")
     m = re.match(r"^nom::number::(complete|streaming)::(be|le)_([uif]\d+)$", n)
     if m:
         return ("prim", n, PRIM_W.get(m.group(3)), m.group(2), m.group(1))
